@@ -695,6 +695,26 @@ def check_lookup(facts, fn, verified):
     tp, L = _table_param(facts, fn)
     if tp is None:
         return False, "no fixed-size table parameter"
+    # the index parameter must reach the comparisons with all its bits: no narrowing cast of (a copy of) it
+    for bi in body.reach:
+        for st in body.blocks[bi]["s"]:
+            if st[0] == "A" and st[2][0] == "cast" and st[2][1] == "IntToInt":
+                l = operand_local(st[2][2])
+                for _ in range(6):
+                    if l is None:
+                        break
+                    if l != 0 and l <= fn["argc"]:
+                        ts = ty_of(facts, fn["locals"][l][0])
+                        td_ = ty_of(facts, st[2][3])
+                        if ts is not None and td_ is not None and td_.bits < ts.bits:
+                            return False, "index parameter `%s` (%d bits) is truncated to %d bits before selection (out-of-range indices alias in-range ones)" % (
+                                fn["locals"][l][1], ts.bits, td_.bits)
+                        break
+                    d = body.single_def(l)
+                    if d and d[2] == "A" and d[3][2][0] == "use":
+                        l = operand_local(d[3][2][1])
+                    else:
+                        break
     loops = body.loops()
     # delegation to another (verified) scanning lookup with the same table
     for bi in body.reach:
